@@ -51,7 +51,7 @@ Fixpoint pexpr (f p:nat) (ts:list token) {struct f} : option (expr * list token)
           | o :: r1 =>
               if isk TLSQBRAC o then
                 match pexpr f 0 r1 with
-                | Some (e, c :: r2) => if isk TRSQBRAC c then ploop f p (EIdx (ttext t) e) r2 else None
+                | Some (e, c :: r2) => if isk TRSQBRAC c then ploop f p (EIdx (ttext t) (tline t) (tcol t) e) r2 else None
                 | _ => None
                 end
               else ploop f p (EVar (ttext t) (tline t) (tcol t)) r
